@@ -348,6 +348,15 @@ class wave_function(ABC):
                 dn_proj = natorbs_up.T.conj() @ natorbs_dn
                 proj_orbs = jnp.linalg.qr(dn_proj, mode="complete")[0]
                 orbs = natorbs_up @ proj_orbs
+                # same refusal as in the closed-shell branch: the dn orbitals must not be
+                # (nearly) orthogonal to the space spanned by the up orbitals
+                det_overlap = np.linalg.det(
+                    orbs[:, : self.nelec[1]].T.conj() @ natorbs_dn[:, : self.nelec[1]]
+                )
+                if np.abs(det_overlap) < 1e-3:
+                    raise ValueError(
+                        "Cannot find a set of ROHF orbitals with good trial overlap."
+                    )
                 return jnp.array([orbs + 0.0j] * n_walkers)
         else:
             return [
